@@ -529,7 +529,7 @@ fn tokens_after_edits_layer(rep: &mut Report, tier: Tier) {
     let syms = ["x", "é", "😀"];
     let mut strings = vec![String::new()];
     let mut frontier = vec![String::new()];
-    for _ in 0..tier.pick(2, 3) {
+    for _ in 0..tier.pick(3, 4) {
         let mut next = vec![];
         for f in &frontier {
             for sy in syms {
@@ -622,7 +622,7 @@ fn tokens_after_edits_layer(rep: &mut Report, tier: Tier) {
             }
         }
     }
-    l.bound = format!("{} documents `pub fn aa() {{ #(\"S\", aa, aa) }}` with S over {{x, 2-byte, 4-byte}} (<= {} symbols) x every valid single edit inside the string literal (both ends within it, replacement from 5 strings) sent as a ranged didChange to the real server: the token stream equals a fresh server's stream for the edited text, and the identifiers behind a still closed string are tokens at the client's positions", strings.len(), tier.pick(2, 3));
+    l.bound = format!("{} documents `pub fn aa() {{ #(\"S\", aa, aa) }}` with S over {{x, 2-byte, 4-byte}} (<= {} symbols) x every valid single edit inside the string literal (both ends within it, replacement from 5 strings) sent as a ranged didChange to the real server: the token stream equals a fresh server's stream for the edited text, and the identifiers behind a still closed string are tokens at the client's positions", strings.len(), tier.pick(3, 4));
     rep.layer(l);
 }
 
